@@ -29,6 +29,7 @@ var globalSwaps = map[string][2]string{
 var dirSwaps = map[string]map[string][2]string{
 	"lib/atomicfile":    {"runtime": {"runtime", modPath + "/zz_verif/simruntime"}},
 	"cmdline/remotecmd": {"net": {"net", modPath + "/zz_verif/simnet"}},
+	"lib/audit":         {"github.com/streadway/amqp": {"amqp", modPath + "/zz_verif/simamqp"}},
 }
 
 // directories whose condition-less loops get a LoopTick
